@@ -398,8 +398,9 @@ func ruleHNSWNeighbourTable(r *Run, rule string) {
 			visitAdd = call
 		}
 	})
+	efParam := pruneBoundParam(fn) // the int parameter that does not index an edge table (the other one is the layer)
 	isEf := func(s string) bool {
-		return s == "P3" || strings.HasPrefix(s, "phi@") // ef, possibly clamped
+		return s == efParam || strings.HasPrefix(s, "phi@") // ef, possibly clamped
 	}
 	classify := func(cond ssa.Value) (string, bool) {
 		switch x := cond.(type) {
